@@ -56,6 +56,12 @@ static bvw negP(bvw a) { return a == 0 ? 0 : verif_P() - a; }                   
 /* canonical value of a field element through the library's own (linear, bit-level) normalisation */
 static bvw fe_cval(const secp256k1_fe *a) { secp256k1_fe t = *a; secp256k1_fe_normalize(&t); return fe_val(&t); }
 #endif
+/* C07: with -DEXACTBUF an input buffer becomes a separate object of EXACTLY n bytes, so that any read past the declared length is a bounds violation */
+#ifdef EXACTBUF
+#define EXACT(name, src, n) unsigned char name[(n) ? (n) : 1]; memcpy(name, src, (n))
+#else
+#define EXACT(name, src, n) const unsigned char *name = (const unsigned char *)(src)
+#endif
 static bvw be_val(const unsigned char *b, int n) { bvw v = 0; int i; for (i = 0; i < n; i++) v = (v << 8) | b[i]; return v; }
 static int verif_allzero(const void *p, size_t n) { const unsigned char *b = (const unsigned char *)p; size_t i; unsigned char a = 0; for (i = 0; i < n; i++) a |= b[i]; return a == 0; }
 #endif
